@@ -326,7 +326,7 @@ class Lib:
     """(value, err) = lib.call('CS_Total', 26, 10.0);  err is None or (code, message)."""
 
     def __init__(self, path, headers):
-        self.dll = ctypes.CDLL(path)
+        self.dll = ctypes.CDLL(path, use_errno=True)     # ctypes installs its private errno copy around every call: ctypes.set_errno() = the errno the library sees
         self.h = headers
         self.fn = {}
         self.unbound = []
@@ -415,6 +415,15 @@ class Lib:
             if not same(v4, v):
                 st.violation("noslot-differs:" + name, case, v, v4)
                 break
+            if rng.random() < 0.5:
+                # the caller's errno is the caller's business: whatever stale value it holds, the answer is the same
+                stale = rng.choice((34, 33, 2, 22))
+                ctypes.set_errno(stale)
+                v5, e5 = self.call(name, *args)
+                ctypes.set_errno(0)
+                if not same(v5, v) or (e5 is None) != ok:
+                    st.violation("errno-dependence:" + name, dict(case, stale_errno=stale), dict(value=v, error=not ok), dict(value=v5, error=e5))
+                    break
             prev = [name] + shown
         st.cls("shadow_replayed", len(order))
 
